@@ -30,8 +30,8 @@ EvalT(p, S, x) ==
     [] x.op = "mul"   -> x.k * EvalT(p, S, x.a)
 
 EvalB(p, S, x) ==
-  CASE x.op = "true"  -> TRUE
-    [] x.op = "false" -> FALSE
+  CASE x.op \in {"true", "pytrue"}   -> TRUE      \* py*: given as a plain Python bool instead of a z3 expression
+    [] x.op \in {"false", "pyfalse"} -> FALSE
     [] x.op = "le"    -> EvalT(p, S, x.a) <= EvalT(p, S, x.b)
     [] x.op = "lt"    -> EvalT(p, S, x.a) <  EvalT(p, S, x.b)
     [] x.op = "ge"    -> EvalT(p, S, x.a) >= EvalT(p, S, x.b)
